@@ -1009,6 +1009,7 @@ func (s *Service) runWith(wid string, cb func()) {
 	// A nil workqueue signals that the service is closing.
 	if s.workqueue == nil {
 		s.mu.Unlock()
+		vhook("rw.refused", wid)
 		return
 	}
 	// Get current work queue for the resource
